@@ -73,6 +73,10 @@ ABORTED = [
     ['options', '\\olegacy*[a'], ['options', '\\begin{oenv}(a'],
     ['default', '\\begin{lstlisting}[a]b{\\end{lstlisting}\\verb|x|'], ['default', '\\begin{lstlisting}[a'],
     ['default', '\\verb|x'],
+    # end of input inside a delimited verbatim argument at nesting depth two or three, and documents
+    # where a depth counter left over from such a parse would change where the argument ends
+    ['every', '\\mv{a{b'], ['every', '\\mv{one} two}'], ['every', '\\mv(a(b(c'], ['every', '\\mv(x) y) z)'],
+    ['every', '\\mv[a[b'], ['every', '\\mv[x] y]'], ['every', '\\mv<a<b'], ['every', '\\mv<x> y>'],
     # the same argument letter with different parser options inside one context: the line-break
     # macro's optional argument does not accept blanks before it, every other [ does
     ['default', '\\item[x] \\sqrt[3]{z} \\section* [Short]{t}'], ['default', 'a\\\\ [C,D] b\\\\[2mm] c'],
